@@ -366,3 +366,547 @@ Corollary construction_api_same_bytes t :
 Proof.
   rewrite construction_api, serialise_is_spec. unfold fields_of. rewrite !map_map. reflexivity.
 Qed.
+
+(* ------------------------------------------------------------------ *)
+(* 6. what the script parser produces re-parses: needed for the normalisation clause *)
+Local Close Scope N_scope.
+
+Definition tok_wf (b : bit) : Prop :=
+  match b with
+  | BOp c => (c < 256)%N /\ is_opcode c = true /\ negb (c =? 0)%N && (c <? 76)%N = false
+             /\ (c =? 76)%N || (c =? 77)%N || (c =? 78)%N = false
+  | BPush d => length d <= 75
+  | BPushData c d => (c = 76 \/ c = 77 \/ c = 78)%N /\ (N.of_nat (length d) < 256 ^ N.of_nat (pushdata_width c))%N
+  | _ => False
+  end.
+
+Lemma tokenize_wf : forall f bs ts, tokenize f bs = Ok ts -> Forall tok_wf ts /\ length (to_bytes ts) <= length bs.
+Proof.
+  induction f as [|f IH]; intros bs ts H; (destruct bs as [|b r]; [inv H; split; [constructor|cbn; lia]|]); [discriminate|].
+  cbn [tokenize] in H. pose proof (b2n_lt b) as Hb.
+  destruct (negb (b2n b =? 0)%N && (b2n b <? 76)%N) eqn:E1.
+  - destruct (tokenize f _) as [rest| |] eqn:E; cbn [bind] in H; try discriminate. inv H.
+    apply IH in E. destruct E as [W L]. split.
+    + constructor; [|exact W]. cbn [tok_wf]. rewrite firstn_length. lia.
+    + cbn [to_bytes bit_bytes length app]. rewrite app_length.
+      pose proof (firstn_skipn (N.to_nat (b2n b)) r) as FS. apply (f_equal (@length byte)) in FS. rewrite app_length in FS. lia.
+  - destruct (is_opcode (b2n b)) eqn:Eop; [|discriminate].
+    destruct ((b2n b =? 76)%N || (b2n b =? 77)%N || (b2n b =? 78)%N) eqn:E2.
+    + destruct (read_le _ r) as [[len r1]|] eqn:Er; [|discriminate].
+      destruct (read_exactN _ r1) as [[d r2]|] eqn:Ed; [|discriminate].
+      destruct (tokenize f r2) as [rest| |] eqn:E; cbn [bind] in H; try discriminate. inv H.
+      apply IH in E. destruct E as [W L].
+      apply read_le_inv in Er. destruct Er as (a & -> & La & _ & Hlen).
+      apply read_exactN_spec in Ed. destruct Ed as [-> Hd].
+      split.
+      * constructor; [|exact W]. cbn [tok_wf]. split; [lia|]. rewrite Hd.
+        unfold pushdata_width. exact Hlen.
+      * cbn [to_bytes bit_bytes length app]. rewrite !app_length, le_bytes_length. unfold pushdata_width. lia.
+    + destruct (tokenize f r) as [rest| |] eqn:E; cbn [bind] in H; try discriminate. inv H.
+      apply IH in E. destruct E as [W L]. split.
+      * constructor; [|exact W]. cbn [tok_wf]. auto.
+      * cbn [to_bytes bit_bytes length app]. lia.
+Qed.
+
+Definition norm (b : bit) : bit := match b with BPush [] => BOp 0 | x => x end.
+
+Lemma is_opcode_0 : is_opcode 0 = true. Proof. vm_compute. reflexivity. Qed.
+Lemma is_opcode_76 : is_opcode 76 = true. Proof. vm_compute. reflexivity. Qed.
+Lemma is_opcode_77 : is_opcode 77 = true. Proof. vm_compute. reflexivity. Qed.
+Lemma is_opcode_78 : is_opcode 78 = true. Proof. vm_compute. reflexivity. Qed.
+
+Lemma firstn_app_exact {A} (a b : list A) : firstn (length a) (a ++ b) = a.
+Proof. rewrite firstn_app, Nat.sub_diag, firstn_all. cbn. apply app_nil_r. Qed.
+Lemma skipn_app_exact {A} (a b : list A) : skipn (length a) (a ++ b) = b.
+Proof. rewrite skipn_app, Nat.sub_diag, skipn_all. reflexivity. Qed.
+
+Lemma firstn_app_len {A} n (a b : list A) : length a = n -> firstn n (a ++ b) = a.
+Proof. intros <-. apply firstn_app_exact. Qed.
+Lemma skipn_app_len {A} n (a b : list A) : length a = n -> skipn n (a ++ b) = b.
+Proof. intros <-. apply skipn_app_exact. Qed.
+
+(* re-tokenizing the serialisation of tokenizer output: same tokens (an empty push, the residue of a
+   direct push truncated to nothing, comes back as OP_0 — same byte), and the independent tokenizer
+   accepts it too, so it is outside C02's class *)
+Lemma retokenize : forall ts, Forall tok_wf ts -> forall f, length (to_bytes ts) <= f ->
+  tokenize f (to_bytes ts) = Ok (map norm ts) /\ exists tks, tok_spec f (to_bytes ts) = TokOk tks.
+Proof.
+  induction ts as [|x ts IH]; intros W f Hf.
+  - split; [destruct f; reflexivity | exists []; destruct f; reflexivity].
+  - inversion W as [|? ? Wx Wts]; subst. cbn [to_bytes map] in *. rewrite app_length in Hf.
+    destruct x as [c|d|c d|c p q|d]; cbn [tok_wf] in Wx; try contradiction.
+    + (* opcode *)
+      destruct Wx as (Hc & Hop & H1 & H2). cbn [bit_bytes app length] in *.
+      destruct f as [|f]; [lia|]. destruct (IH Wts f ltac:(lia)) as (IHa & tks & IHb).
+      cbn [tokenize tok_spec]. rewrite b2n_n2b by exact Hc. rewrite H1, Hop, H2, IHa. cbn [bind norm]. split; [reflexivity|].
+      replace ((1 <=? c)%N && (c <=? 75)%N) with false by lia.
+      replace ((76 <=? c)%N && (c <=? 78)%N) with false by lia.
+      rewrite ?Hop, IHb. cbn [tcons]. eauto.
+    + (* direct push *)
+      cbn [bit_bytes app length] in *. destruct f as [|f]; [lia|].
+      destruct (IH Wts f ltac:(lia)) as (IHa & tks & IHb).
+      cbn [tokenize tok_spec]. rewrite b2n_n2b by lia.
+      destruct d as [|d0 d'].
+      * cbn [length app]. change (N.of_nat 0) with 0%N. change (negb (0 =? 0)%N && (0 <? 76)%N) with false.
+        cbv iota. rewrite is_opcode_0. change ((0 =? 76)%N || (0 =? 77)%N || (0 =? 78)%N) with false. cbv iota.
+        rewrite IHa. cbn [bind norm]. split; [reflexivity|].
+        change ((1 <=? 0)%N && (0 <=? 75)%N) with false. change ((76 <=? 0)%N && (0 <=? 78)%N) with false. cbv iota.
+        rewrite ?is_opcode_0, IHb. cbn [tcons]. eauto.
+      * set (dd := d0 :: d') in *. assert (Hl : 1 <= length dd) by (unfold dd; cbn; lia).
+        replace (negb (N.of_nat (length dd) =? 0)%N && (N.of_nat (length dd) <? 76)%N) with true by lia.
+        rewrite Nat2N.id, firstn_app_exact, skipn_app_exact, IHa. cbn [bind]. split; [reflexivity|].
+        replace ((1 <=? N.of_nat (length dd))%N && (N.of_nat (length dd) <=? 75)%N) with true by lia.
+        rewrite app_length. replace (N.of_nat (length dd + length (to_bytes ts)) <? N.of_nat (length dd))%N with false by lia.
+        rewrite ?Nat2N.id, ?firstn_app_exact, ?skipn_app_exact, IHb. cbn [tcons]. eauto.
+    + (* OP_PUSHDATAn *)
+      destruct Wx as (Hc & Hlen).
+      assert (Hw : length (le_bytes (pushdata_width c) (N.of_nat (length d))) = pushdata_width c) by apply le_bytes_length.
+      cbn [bit_bytes app length] in *. rewrite !app_length, Hw in Hf. destruct f as [|f]; [lia|].
+      destruct (IH Wts f ltac:(lia)) as (IHa & tks & IHb).
+      cbn [tokenize tok_spec]. rewrite b2n_n2b by lia.
+      replace (negb (c =? 0)%N && (c <? 76)%N) with false by lia.
+      replace ((c =? 76)%N || (c =? 77)%N || (c =? 78)%N) with true by lia.
+      assert (Hop : is_opcode c = true) by (destruct Hc as [->|[->| ->]]; [apply is_opcode_76|apply is_opcode_77|apply is_opcode_78]).
+      rewrite Hop.
+      change (if (c =? 76)%N then 1 else if (c =? 77)%N then 2 else 4) with (pushdata_width c).
+      rewrite <- !app_assoc. rewrite read_le_app by exact Hlen. rewrite read_exactN_app, IHa. cbn [bind]. split; [reflexivity|].
+      replace ((1 <=? c)%N && (c <=? 75)%N) with false by lia.
+      replace ((76 <=? c)%N && (c <=? 78)%N) with true by lia.
+      change (len_width c) with (pushdata_width c).
+      rewrite !app_length, Hw.
+      replace (Nat.ltb (pushdata_width c + (length d + length (to_bytes ts))) (pushdata_width c)) with false
+        by (symmetry; apply Nat.ltb_ge; lia).
+      rewrite !(firstn_app_len _ _ _ Hw), !(skipn_app_len _ _ _ Hw).
+      rewrite le_val_le_bytes_small by exact Hlen.
+      rewrite app_length. replace (N.of_nat (length d + length (to_bytes ts)) <? N.of_nat (length d))%N with false by lia.
+      rewrite ?Nat2N.id, ?firstn_app_exact, ?skipn_app_exact, IHb. cbn [tcons]. eauto.
+Qed.
+
+(* nesting is insensitive to that renaming: OP_0 and a push are both plain elements *)
+Lemma nest_norm : forall fuel m ts bs t r,
+  nest fuel m ts = Ok (bs, t, r) -> exists bs', nest fuel m (map norm ts) = Ok (bs', t, map norm r).
+Proof.
+  induction fuel as [|f IH]; intros m ts bs t r H; [discriminate|].
+  cbn [nest] in H. destruct ts as [|x ts'].
+  - destruct m; inv H. exists []. reflexivity.
+  - cbn [map].
+    assert (Hplain : forall o o',
+      (do y <- nest f m ts'; let '(bs0, t0, r') := y in Ok (o :: bs0, t0, r')) = Ok (bs, t, r) ->
+      exists bs', (do y <- nest f m (map norm ts'); let '(bs0, t0, r') := y in Ok (o' :: bs0, t0, r')) = Ok (bs', t, map norm r)).
+    { intros o o' Ho. destruct (nest f m ts') as [[[bs1 t1] r1]| |] eqn:E; cbn [bind] in Ho; try discriminate. inv Ho.
+      apply IH in E. destruct E as (bs' & E). rewrite E. cbn [bind]. eauto. }
+    destruct x as [c|d|c d|c p q|d].
+    + cbn [norm nest]. destruct (is_if c) eqn:Hif.
+      * destruct (nest f Pass ts') as [[[p tp] r1]| |] eqn:H1; try discriminate.
+        apply IH in H1. destruct H1 as (p' & H1). rewrite H1.
+        destruct tp; [discriminate| |].
+        -- destruct (nest f Fail r1) as [[[q tq] r2]| |] eqn:H2; try discriminate.
+           apply IH in H2. destruct H2 as (q' & H2). rewrite H2.
+           destruct tq; try discriminate.
+           destruct (nest f m r2) as [[[bs1 t1] r3]| |] eqn:H3; cbn [bind] in H; try discriminate. inv H.
+           apply IH in H3. destruct H3 as (b3 & H3). rewrite H3. cbn [bind]. eauto.
+        -- destruct (nest f m r1) as [[[bs1 t1] r3]| |] eqn:H3; cbn [bind] in H; try discriminate. inv H.
+           apply IH in H3. destruct H3 as (b3 & H3). rewrite H3. cbn [bind]. eauto.
+      * destruct m, (c =? OP_ELSE)%N, (c =? OP_ENDIF)%N;
+          try (inv H; eexists; reflexivity); try (eapply Hplain; exact H).
+    + destruct d as [|d0 d'].
+      * cbn [norm nest]. change (is_if 0) with false. cbv iota.
+        change (0 =? OP_ELSE)%N with false. change (0 =? OP_ENDIF)%N with false.
+        destruct m; eapply Hplain; exact H.
+      * cbn [norm nest]. eapply Hplain; exact H.
+    + cbn [norm nest]. eapply Hplain; exact H.
+    + cbn [norm nest]. eapply Hplain; exact H.
+    + cbn [norm nest]. eapply Hplain; exact H.
+Qed.
+
+Lemma to_bytes_norm ts : to_bytes (map norm ts) = to_bytes ts.
+Proof.
+  induction ts as [|x ts IH]; cbn [map to_bytes]; [reflexivity|]. rewrite IH. f_equal.
+  destruct x as [c|[|d0 d']|c d|c p q|d]; reflexivity.
+Qed.
+
+Lemma is_flat_norm ts : is_flat ts = true -> is_flat (map norm ts) = true.
+Proof.
+  induction ts as [|x ts IH]; cbn [map is_flat]; [reflexivity|].
+  destruct x as [c|[|d0 d']|c d|c p q|d]; cbn [norm is_flat]; auto.
+Qed.
+
+(* The serialisation of a parsed script is itself accepted, lies outside C02's class, and is not longer
+   than what was parsed.  (Hence it is a fixed point of parse-then-serialise, by C02's round-trip.) *)
+Lemma reparse_script sb s :
+  from_bytes sb = Ok s ->
+  script_ok (to_bytes s) /\ length (to_bytes s) <= length sb.
+Proof.
+  unfold from_bytes. intros H.
+  destruct (tokenize (length sb) sb) as [ts| |] eqn:Et; cbn [bind] in H; try discriminate.
+  pose proof (tokenize_flat _ _ _ Et) as Hfl.
+  pose proof (nest_top_flats _ _ Hfl H) as Hfs.
+  assert (Eb : to_bytes s = to_bytes ts) by (rewrite <- to_bytes_flats, Hfs; reflexivity).
+  destruct (tokenize_wf _ _ _ Et) as [W L].
+  destruct (retokenize ts W (length (to_bytes ts)) (Nat.le_refl _)) as (Rt & tks & Rs).
+  rewrite Eb. split; [|exact L]. split.
+  - unfold from_bytes. rewrite Rt. cbn [bind].
+    unfold nest_top in *.
+    destruct (nest (S (length ts)) Top ts) as [[[b t] r]| |] eqn:En; cbn [bind] in H; try discriminate.
+    apply nest_norm in En. destruct En as (b' & En). rewrite map_length, En. cbn [bind]. eauto.
+  - unfold truncated_tail, tokenize_spec. rewrite Rs. reflexivity.
+Qed.
+
+(* ------------------------------------------------------------------ *)
+(* 7. what the parser returns is in range and re-encodable: normalisation *)
+Local Open Scope N_scope.
+
+Lemma read32_padded_length bs : length (fst (read32_padded bs)) = 32%nat.
+Proof.
+  unfold read32_padded. cbn [fst]. rewrite app_length, repeat_length.
+  pose proof (firstn_le_length 32 bs). lia.
+Qed.
+
+Lemma txin_read_ok bs i r : txin_read bs = Ok (i, r) -> in_ok (in_fields_of i).
+Proof.
+  unfold txin_read. pose proof (read32_padded_length bs) as L32.
+  destruct (read32_padded bs) as [idle r0]. cbn [fst] in L32.
+  destruct (read_le 4 r0) as [[vo r1]|] eqn:E1; cbn [of_option bind]; [|discriminate].
+  destruct (read_varint r1) as [[slen r2]| |] eqn:E2; cbn [bind]; try discriminate.
+  destruct (read_exactN slen r2) as [[sb r3]|] eqn:E3; cbn [of_option bind]; [|discriminate].
+  destruct (read_le 4 r3) as [[sq r4]|] eqn:E4; cbn [of_option bind]; [|discriminate].
+  apply read_le_inv in E1. destruct E1 as (_ & _ & _ & _ & Hvo). rewrite pow256_4 in Hvo.
+  apply read_le_inv in E4. destruct E4 as (_ & _ & _ & _ & Hsq). rewrite pow256_4 in Hsq.
+  apply read_varint_inv in E2. destruct E2 as (Hslen & _).
+  apply read_exactN_spec in E3. destruct E3 as (_ & Hsb).
+  destruct (is_coinbase_outpoint (rev idle) vo) eqn:Ecb.
+  - cbn [bind]. intros H; inversion H; subst. unfold in_ok, in_range, in_fields_of. cbn [f_prev f_vout f_script f_seq prev_tx_id vout unlocking sequence].
+    rewrite rev_length. cbn [to_bytes bit_bytes]. rewrite app_nil_r.
+    split; [repeat split; [exact L32 | exact Hvo | exact Hsq | exact Hslen]|].
+    rewrite null_outpoint_model. cbn [f_prev f_vout]. rewrite Ecb. discriminate.
+  - destruct (from_bytes sb) as [scr| |] eqn:Es; cbn [bind]; try discriminate.
+    intros H; inversion H; subst. unfold in_ok, in_range, in_fields_of. cbn [f_prev f_vout f_script f_seq prev_tx_id vout unlocking sequence].
+    rewrite rev_length. destruct (reparse_script _ _ Es) as [Hok Hl].
+    split; [repeat split; [exact L32 | exact Hvo | exact Hsq | unfold u64 in *; lia]|]. intros _. exact Hok.
+Qed.
+
+Lemma txout_read_ok bs o r : txout_read bs = Ok (o, r) -> out_ok (out_fields_of o).
+Proof.
+  unfold txout_read.
+  destruct (read_le 8 bs) as [[v r1]|] eqn:E1; cbn [of_option bind]; [|discriminate].
+  destruct (read_varint r1) as [[slen r2]| |] eqn:E2; cbn [bind]; try discriminate.
+  destruct (read_exactN slen r2) as [[sb r3]|] eqn:E3; cbn [of_option bind]; [|discriminate].
+  destruct (from_bytes sb) as [scr| |] eqn:Es; cbn [bind]; try discriminate.
+  intros H; inversion H; subst.
+  apply read_le_inv in E1. destruct E1 as (_ & _ & _ & _ & Hv). rewrite pow256_8 in Hv.
+  apply read_varint_inv in E2. destruct E2 as (Hslen & _).
+  apply read_exactN_spec in E3. destruct E3 as (_ & Hsb).
+  destruct (reparse_script _ _ Es) as [Hok Hl].
+  unfold out_ok, out_range, out_fields_of. cbn [f_value f_pk value script_pub_key].
+  split; [split; [exact Hv | unfold u64 in *; lia] | exact Hok].
+Qed.
+
+Lemma read_many_inv {A} (rd : bytes -> outcome (A * bytes)) (P : A -> Prop) :
+  (forall bs a r, rd bs = Ok (a, r) -> P a) ->
+  forall fuel n bs l r, read_many rd fuel n bs = Ok (l, r) -> Forall P l /\ N.of_nat (length l) = n.
+Proof.
+  intros HP. induction fuel as [|f IH]; intros n bs l r H; cbn [read_many] in H;
+    destruct (n =? 0) eqn:En; try discriminate; try (inversion H; subst; split; [constructor | cbn; lia]).
+  destruct (rd bs) as [[a r1]| |] eqn:Ea; cbn [bind] in H; try discriminate.
+  destruct (read_many rd f (n - 1) r1) as [[l1 r2]| |] eqn:El; cbn [bind] in H; try discriminate.
+  inversion H; subst. apply IH in El. destruct El as [Fl Ll]. apply HP in Ea.
+  split; [constructor; assumption | cbn [length]; lia].
+Qed.
+
+Lemma parse_fields_ok bs t : tx_from_bytes bs = Ok t -> fields_ok (fields_of t).
+Proof.
+  unfold tx_from_bytes.
+  destruct (read_le 4 bs) as [[ver r0]|] eqn:E0; cbn [of_option bind]; [|discriminate].
+  destruct (read_varint r0) as [[nin r1]| |] eqn:E1; cbn [bind]; try discriminate.
+  destruct (read_many txin_read _ nin r1) as [[ins r2]| |] eqn:E2; cbn [bind]; try discriminate.
+  destruct (read_varint r2) as [[nout r3]| |] eqn:E3; cbn [bind]; try discriminate.
+  destruct (read_many txout_read _ nout r3) as [[outs r4]| |] eqn:E4; cbn [bind]; try discriminate.
+  destruct (read_le 4 r4) as [[lt r5]|] eqn:E5; cbn [of_option bind]; [|discriminate].
+  intros H; inversion H; subst.
+  apply read_le_inv in E0. destruct E0 as (_ & _ & _ & _ & Hver). rewrite pow256_4 in Hver.
+  apply read_le_inv in E5. destruct E5 as (_ & _ & _ & _ & Hlt). rewrite pow256_4 in Hlt.
+  apply read_varint_inv in E1. destruct E1 as (Hnin & _).
+  apply read_varint_inv in E3. destruct E3 as (Hnout & _).
+  apply (read_many_inv txin_read (fun i => in_ok (in_fields_of i)) txin_read_ok) in E2. destruct E2 as [Fi Li].
+  apply (read_many_inv txout_read (fun o => out_ok (out_fields_of o)) txout_read_ok) in E4. destruct E4 as [Fo Lo].
+  unfold fields_ok, fields_of. cbn [f_version f_ins f_outs f_locktime version inputs outputs locktime].
+  rewrite !map_length, Li, Lo. repeat split; try assumption; apply Forall_map; assumption.
+Qed.
+
+(* Whatever byte string the parser accepts (non-minimal compact sizes, trailing bytes, a script from C02's class
+   that was shortened, ...), the serialisation of the result is accepted again and re-serialises to itself. *)
+Theorem normalises_to_fixpoint bs t :
+  tx_from_bytes bs = Ok t ->
+  exists t', tx_from_bytes (tx_bytes t) = Ok t' /\ tx_bytes t' = tx_bytes t /\ fields_of t' = fields_of t.
+Proof.
+  intros H. apply parse_fields_ok in H.
+  destruct (parse_encode (fields_of t) [] H) as (t' & E & B & F). rewrite app_nil_r in E.
+  exists t'. rewrite serialise_is_spec. auto.
+Qed.
+
+(* ------------------------------------------------------------------ *)
+(* 8. the independent decoder: it inverts the encoder, its output is in range, and a byte string it calls
+   canonical IS the encoding of the decoded fields *)
+Lemma take_exact_app n a r : length a = n -> take_exact n (a ++ r) = Some (a, r).
+Proof.
+  intros L. unfold take_exact. rewrite app_length.
+  replace (Nat.ltb (length a + length r) n) with false by (symmetry; apply Nat.ltb_ge; lia).
+  rewrite (firstn_app_len _ _ _ L), (skipn_app_len _ _ _ L). reflexivity.
+Qed.
+Lemma take_exact_inv n bs a r : take_exact n bs = Some (a, r) -> bs = a ++ r /\ length a = n.
+Proof.
+  unfold take_exact. destruct (Nat.ltb (length bs) n) eqn:E; [discriminate|]. apply Nat.ltb_ge in E.
+  intros H; inversion H; subst. split; [symmetry; apply firstn_skipn | apply firstn_length_le; exact E].
+Qed.
+Lemma take_int_app w n r : n < 256 ^ N.of_nat w -> take_int w (le_bytes w n ++ r) = Some (n, r).
+Proof. intros H. unfold take_int. rewrite take_exact_app by apply le_bytes_length. rewrite le_val_le_bytes_small by exact H. reflexivity. Qed.
+Lemma take_int_inv w bs v r :
+  take_int w bs = Some (v, r) -> exists a, bs = a ++ r /\ length a = w /\ v = le_val a /\ v < 256 ^ N.of_nat w.
+Proof.
+  unfold take_int. destruct (take_exact w bs) as [[a r']|] eqn:E; [|discriminate]. intros H; inversion H; subst.
+  apply take_exact_inv in E. destruct E as [-> <-]. exists a. repeat split. apply le_val_bound.
+Qed.
+Lemma take_len_app a r : take_len (N.of_nat (length a)) (a ++ r) = Some (a, r).
+Proof.
+  unfold take_len. rewrite app_length. replace (N.of_nat (length a + length r) <? N.of_nat (length a)) with false by lia.
+  rewrite Nat2N.id, firstn_app_exact, skipn_app_exact. reflexivity.
+Qed.
+Lemma take_len_inv n bs a r : take_len n bs = Some (a, r) -> bs = a ++ r /\ N.of_nat (length a) = n.
+Proof.
+  unfold take_len. destruct (N.of_nat (length bs) <? n) eqn:E; [discriminate|]. intros H; inversion H; subst.
+  split; [symmetry; apply firstn_skipn | rewrite firstn_length_le by lia; lia].
+Qed.
+
+Lemma b2n_fd : b2n xfd = 253. Proof. reflexivity. Qed.
+Lemma b2n_fe : b2n xfe = 254. Proof. reflexivity. Qed.
+Lemma b2n_ff : b2n xff = 255. Proof. reflexivity. Qed.
+
+Lemma read_compact_compact n r : n < u64 -> read_compact (compact n ++ r) = Some (n, true, r).
+Proof.
+  unfold u64, compact. intros Hn.
+  destruct (n <? 253) eqn:E1; [|destruct (n <? 65536) eqn:E2; [|destruct (n <? 4294967296) eqn:E3]]; cbn [app read_compact].
+  - rewrite b2n_n2b by lia. rewrite E1. reflexivity.
+  - rewrite b2n_fd. change (253 <? 253) with false. change (253 =? 253) with true. cbv iota.
+    rewrite take_int_app by (rewrite pow256_2; lia). replace (253 <=? n) with true by lia. reflexivity.
+  - rewrite b2n_fe. change (254 <? 253) with false. change (254 =? 253) with false. change (254 =? 254) with true. cbv iota.
+    rewrite take_int_app by (rewrite pow256_4; lia). replace (65536 <=? n) with true by lia. reflexivity.
+  - rewrite b2n_ff. change (255 <? 253) with false. change (255 =? 253) with false. change (255 =? 254) with false. cbv iota.
+    rewrite take_int_app by (rewrite pow256_8; lia). replace (4294967296 <=? n) with true by lia. reflexivity.
+Qed.
+
+Lemma read_compact_inv bs n m r :
+  read_compact bs = Some (n, m, r) -> n < u64 /\ (m = true -> bs = compact n ++ r).
+Proof.
+  unfold u64. destruct bs as [|b bs']; [discriminate|]. cbn [read_compact]. pose proof (b2n_lt b) as Hb.
+  destruct (b2n b <? 253) eqn:E0.
+  - intros H; inversion H; subst. split; [lia|]. intros _. unfold compact. rewrite E0, n2b_b2n. reflexivity.
+  - destruct (b2n b =? 253) eqn:E1; [|destruct (b2n b =? 254) eqn:E2].
+    + destruct (take_int 2 bs') as [[v r']|] eqn:E; [|discriminate]. intros H; inversion H; subst.
+      apply take_int_inv in E. destruct E as (a & -> & La & -> & Hv). rewrite pow256_2 in Hv. split; [lia|].
+      intros Hm. unfold compact. replace (le_val a <? 253) with false by lia. replace (le_val a <? 65536) with true by lia.
+      rewrite <- La, le_bytes_le_val. cbn [app]. f_equal. apply b2n_inj. rewrite b2n_fd. lia.
+    + destruct (take_int 4 bs') as [[v r']|] eqn:E; [|discriminate]. intros H; inversion H; subst.
+      apply take_int_inv in E. destruct E as (a & -> & La & -> & Hv). rewrite pow256_4 in Hv. split; [lia|].
+      intros Hm. unfold compact. replace (le_val a <? 253) with false by lia. replace (le_val a <? 65536) with false by lia.
+      replace (le_val a <? 4294967296) with true by lia.
+      rewrite <- La, le_bytes_le_val. cbn [app]. f_equal. apply b2n_inj. rewrite b2n_fe. lia.
+    + destruct (take_int 8 bs') as [[v r']|] eqn:E; [|discriminate]. intros H; inversion H; subst.
+      apply take_int_inv in E. destruct E as (a & -> & La & -> & Hv). rewrite pow256_8 in Hv. split; [lia|].
+      intros Hm. unfold compact. replace (le_val a <? 253) with false by lia. replace (le_val a <? 65536) with false by lia.
+      replace (le_val a <? 4294967296) with false by lia.
+      rewrite <- La, le_bytes_le_val. cbn [app]. f_equal. apply b2n_inj. rewrite b2n_ff. lia.
+Qed.
+
+Lemma decode_in_encode i r : in_range i -> decode_in (encode_in i ++ r) = Some (i, true, r).
+Proof.
+  intros (Lid & Hvo & Hsq & Hlen). destruct i as [prev vo scr sq]. cbn [f_prev f_vout f_script f_seq] in *.
+  unfold encode_in, decode_in. cbn [f_prev f_vout f_script f_seq]. rewrite <- !app_assoc.
+  rewrite take_exact_app by (rewrite rev_length; exact Lid).
+  rewrite take_int_app by (rewrite pow256_4; exact Hvo).
+  rewrite read_compact_compact by exact Hlen. rewrite take_len_app.
+  rewrite take_int_app by (rewrite pow256_4; exact Hsq). rewrite rev_involutive. reflexivity.
+Qed.
+Lemma decode_out_encode o r : out_range o -> decode_out (encode_out o ++ r) = Some (o, true, r).
+Proof.
+  intros (Hv & Hlen). destruct o as [v scr]. cbn [f_value f_pk] in *.
+  unfold encode_out, decode_out. cbn [f_value f_pk]. rewrite <- !app_assoc.
+  rewrite take_int_app by (rewrite pow256_8; exact Hv).
+  rewrite read_compact_compact by exact Hlen. rewrite take_len_app. reflexivity.
+Qed.
+
+Lemma decode_in_inv bs i m r : decode_in bs = Some (i, m, r) -> in_range i /\ (m = true -> bs = encode_in i ++ r).
+Proof.
+  unfold decode_in.
+  destruct (take_exact 32 bs) as [[idw r0]|] eqn:E0; [|discriminate].
+  destruct (take_int 4 r0) as [[vo r1]|] eqn:E1; [|discriminate].
+  destruct (read_compact r1) as [[[len m'] r2]|] eqn:E2; [|discriminate].
+  destruct (take_len len r2) as [[scr r3]|] eqn:E3; [|discriminate].
+  destruct (take_int 4 r3) as [[sq r4]|] eqn:E4; [|discriminate].
+  intros H; inversion H; subst.
+  apply take_exact_inv in E0. destruct E0 as [-> L0].
+  apply take_int_inv in E1. destruct E1 as (a1 & -> & La1 & -> & Hvo). rewrite pow256_4 in Hvo.
+  apply read_compact_inv in E2. destruct E2 as (Hlen & Hm).
+  apply take_len_inv in E3. destruct E3 as [-> Ls].
+  apply take_int_inv in E4. destruct E4 as (a4 & -> & La4 & -> & Hsq). rewrite pow256_4 in Hsq.
+  unfold in_range, encode_in. cbn [f_prev f_vout f_script f_seq]. rewrite rev_length, rev_involutive.
+  split; [repeat split; [exact L0 | exact Hvo | exact Hsq | rewrite Ls; exact Hlen]|].
+  assert (B1 : le_bytes 4 (le_val a1) = a1) by (rewrite <- La1; apply le_bytes_le_val).
+  assert (B4 : le_bytes 4 (le_val a4) = a4) by (rewrite <- La4; apply le_bytes_le_val).
+  intros ->. rewrite (Hm eq_refl). rewrite Ls, B1, B4, <- !app_assoc. reflexivity.
+Qed.
+Lemma decode_out_inv bs o m r : decode_out bs = Some (o, m, r) -> out_range o /\ (m = true -> bs = encode_out o ++ r).
+Proof.
+  unfold decode_out.
+  destruct (take_int 8 bs) as [[v r1]|] eqn:E1; [|discriminate].
+  destruct (read_compact r1) as [[[len m'] r2]|] eqn:E2; [|discriminate].
+  destruct (take_len len r2) as [[scr r3]|] eqn:E3; [|discriminate].
+  intros H; inversion H; subst.
+  apply take_int_inv in E1. destruct E1 as (a1 & -> & La1 & -> & Hv). rewrite pow256_8 in Hv.
+  apply read_compact_inv in E2. destruct E2 as (Hlen & Hm).
+  apply take_len_inv in E3. destruct E3 as [-> Ls].
+  unfold out_range, encode_out. cbn [f_value f_pk].
+  split; [split; [exact Hv | rewrite Ls; exact Hlen]|].
+  assert (B1 : le_bytes 8 (le_val a1) = a1) by (rewrite <- La1; apply le_bytes_le_val).
+  intros ->. rewrite (Hm eq_refl). rewrite Ls, B1, <- !app_assoc. reflexivity.
+Qed.
+
+Lemma decode_list_encode {A} (item : bytes -> option (A * bool * bytes)) (enc : A -> bytes) :
+  forall l, (forall x, In x l -> forall r, item (enc x ++ r) = Some (x, true, r)) ->
+  forall fuel r, (length l <= fuel)%nat ->
+    decode_list item fuel (N.of_nat (length l)) (List.concat (map enc l) ++ r) = Some (l, true, r).
+Proof.
+  induction l as [|x l IH]; intros Hit fuel r Hf.
+  - destruct fuel; reflexivity.
+  - destruct fuel as [|f]; [cbn in Hf; lia|]. cbn [length map List.concat]. rewrite <- app_assoc.
+    cbn [decode_list]. replace (N.of_nat (S (length l)) =? 0) with false by lia.
+    rewrite (Hit x (or_introl eq_refl)).
+    replace (N.of_nat (S (length l)) - 1) with (N.of_nat (length l)) by lia.
+    rewrite (IH (fun y Hy => Hit y (or_intror Hy)) f r) by (cbn in Hf; lia). reflexivity.
+Qed.
+
+Lemma decode_list_inv {A} (item : bytes -> option (A * bool * bytes)) (enc : A -> bytes) (P : A -> Prop) :
+  (forall bs a m r, item bs = Some (a, m, r) -> P a /\ (m = true -> bs = enc a ++ r)) ->
+  forall fuel count bs l m r, decode_list item fuel count bs = Some (l, m, r) ->
+    Forall P l /\ N.of_nat (length l) = count /\ (m = true -> bs = List.concat (map enc l) ++ r).
+Proof.
+  intros Hit. induction fuel as [|f IH]; intros count bs l m r H; cbn [decode_list] in H;
+    destruct (count =? 0) eqn:Ec; try discriminate;
+    try (inversion H; subst; split; [constructor | split; [cbn; lia | reflexivity]]).
+  destruct (item bs) as [[[a ma] r1]|] eqn:Ea; [|discriminate].
+  destruct (decode_list item f (count - 1) r1) as [[[l1 ml] r2]|] eqn:El; [|discriminate].
+  inversion H; subst. apply IH in El. destruct El as (Fl & Ll & Ml). apply Hit in Ea. destruct Ea as [Pa Ma].
+  split; [constructor; assumption|]. split; [cbn [length]; lia|].
+  intros Hm. apply andb_true_iff in Hm. destruct Hm as [-> ->]. cbn [map List.concat].
+  rewrite (Ma eq_refl), (Ml eq_refl), <- app_assoc. reflexivity.
+Qed.
+
+Theorem decode_encode f r : fields_range f -> decode_tx_spec (encode_tx_spec f ++ r) = Some (mk_decoded f true r).
+Proof.
+  intros (Hver & Hlt & Hnin & Hnout & Hins & Houts). destruct f as [ver ins outs lt]. cbn [f_version f_ins f_outs f_locktime] in *.
+  unfold encode_tx_spec, decode_tx_spec. cbn [f_version f_ins f_outs f_locktime]. rewrite <- !app_assoc.
+  rewrite take_int_app by (rewrite pow256_4; exact Hver).
+  rewrite read_compact_compact by exact Hnin.
+  rewrite Forall_forall in Hins, Houts.
+  rewrite (decode_list_encode decode_in encode_in ins (fun x Hx r0 => decode_in_encode x r0 (Hins x Hx))).
+  2:{ rewrite app_length. pose proof (concat_length_ge encode_in ins (fun x _ => encode_in_length x)). lia. }
+  rewrite read_compact_compact by exact Hnout.
+  rewrite (decode_list_encode decode_out encode_out outs (fun x Hx r0 => decode_out_encode x r0 (Houts x Hx))).
+  2:{ rewrite app_length. pose proof (concat_length_ge encode_out outs (fun x _ => encode_out_length x)). lia. }
+  rewrite take_int_app by (rewrite pow256_4; exact Hlt). reflexivity.
+Qed.
+
+Theorem decode_inv bs d :
+  decode_tx_spec bs = Some d ->
+  fields_range (d_fields d) /\ (d_minimal d = true -> bs = encode_tx_spec (d_fields d) ++ d_rest d).
+Proof.
+  unfold decode_tx_spec.
+  destruct (take_int 4 bs) as [[ver r0]|] eqn:E0; [|discriminate].
+  destruct (read_compact r0) as [[[nin m1] r1]|] eqn:E1; [|discriminate].
+  destruct (decode_list decode_in _ nin r1) as [[[ins m2] r2]|] eqn:E2; [|discriminate].
+  destruct (read_compact r2) as [[[nout m3] r3]|] eqn:E3; [|discriminate].
+  destruct (decode_list decode_out _ nout r3) as [[[outs m4] r4]|] eqn:E4; [|discriminate].
+  destruct (take_int 4 r4) as [[lt r5]|] eqn:E5; [|discriminate].
+  intros H; inversion H; subst. cbn [d_fields d_minimal d_rest].
+  apply take_int_inv in E0. destruct E0 as (a0 & -> & La0 & -> & Hver). rewrite pow256_4 in Hver.
+  apply read_compact_inv in E1. destruct E1 as (Hnin & Hm1).
+  apply (decode_list_inv decode_in encode_in in_range decode_in_inv) in E2. destruct E2 as (Fi & Li & Mi).
+  apply read_compact_inv in E3. destruct E3 as (Hnout & Hm3).
+  apply (decode_list_inv decode_out encode_out out_range decode_out_inv) in E4. destruct E4 as (Fo & Lo & Mo).
+  apply take_int_inv in E5. destruct E5 as (a5 & -> & La5 & -> & Hlt). rewrite pow256_4 in Hlt.
+  unfold fields_range, encode_tx_spec. cbn [f_version f_ins f_outs f_locktime].
+  split; [rewrite Li, Lo; repeat split; assumption|].
+  intros Hm. apply andb_true_iff in Hm. destruct Hm as [Hm ->]. apply andb_true_iff in Hm. destruct Hm as [Hm ->].
+  apply andb_true_iff in Hm. destruct Hm as [-> ->].
+  assert (B0 : le_bytes 4 (le_val a0) = a0) by (rewrite <- La0; apply le_bytes_le_val).
+  assert (B5 : le_bytes 4 (le_val a5) = a5) by (rewrite <- La5; apply le_bytes_le_val).
+  rewrite (Hm1 eq_refl), (Mi eq_refl), (Hm3 eq_refl), (Mo eq_refl), Li, Lo, B0, B5, <- !app_assoc.
+  reflexivity.
+Qed.
+
+(* the canonical byte strings are exactly the encodings of in-range fields *)
+Theorem canonical_iff bs :
+  canonical bs = true <-> exists f, fields_range f /\ bs = encode_tx_spec f.
+Proof.
+  unfold canonical. split.
+  - destruct (decode_tx_spec bs) as [d|] eqn:E; [|discriminate]. intros Hc. apply andb_true_iff in Hc. destruct Hc as [Hm Hr].
+    apply decode_inv in E. destruct E as [Hrange Henc]. destruct (d_rest d); [|discriminate].
+    exists (d_fields d). split; [exact Hrange|]. rewrite (Henc Hm), app_nil_r. reflexivity.
+  - intros (f & Hf & ->). rewrite <- (app_nil_r (encode_tx_spec f)), decode_encode by exact Hf. reflexivity.
+Qed.
+
+Lemma fields_ok_range f : fields_ok f -> fields_range f.
+Proof.
+  intros (Hver & Hlt & Hnin & Hnout & Hins & Houts). unfold fields_range. repeat split; try assumption.
+  - eapply Forall_impl; [|exact Hins]. intros i [Hr _]. exact Hr.
+  - eapply Forall_impl; [|exact Houts]. intros o [Hr _]. exact Hr.
+Qed.
+
+(* ------------------------------------------------------------------ *)
+(* 9. the property in its own words: a well-formed (canonical) byte string whose scripts the script parser
+   accepts (outside C02's class; coinbase data arbitrary) parses, re-serialises to exactly itself, and every
+   accessor reports what the independent decoder reads from it *)
+Definition scripts_ok (f : tx_fields) : Prop :=
+  Forall (fun i => null_outpoint i = false -> script_ok (f_script i)) (f_ins f) /\ Forall (fun o => script_ok (f_pk o)) (f_outs f).
+
+Lemma fields_ok_of f : fields_range f -> scripts_ok f -> fields_ok f.
+Proof.
+  intros (Hver & Hlt & Hnin & Hnout & Hins & Houts) [Si So]. unfold fields_ok. repeat split; try assumption.
+  - rewrite Forall_forall in *. intros i Hi. split; auto.
+  - rewrite Forall_forall in *. intros o Ho. split; auto.
+Qed.
+
+Theorem canonical_roundtrip bs f :
+  canonical bs = true -> decode_fields_spec bs = Some f -> scripts_ok f ->
+  exists t, tx_from_bytes bs = Ok t /\ tx_bytes t = bs /\ fields_of t = f.
+Proof.
+  unfold canonical, decode_fields_spec. destruct (decode_tx_spec bs) as [d|] eqn:E; [|discriminate].
+  intros Hc Hf Hs. inversion Hf; subst. apply andb_true_iff in Hc. destruct Hc as [Hm Hr].
+  apply decode_inv in E. destruct E as [Hrange Henc]. destruct (d_rest d); [|discriminate].
+  specialize (Henc Hm). rewrite app_nil_r in Henc.
+  destruct (parse_encode (d_fields d) [] (fields_ok_of _ Hrange Hs)) as (t & Et & Bt & Ft).
+  rewrite app_nil_r, <- Henc in Et. exists t. rewrite Henc. auto.
+Qed.
+
+Section AccessorsOnBytes.
+  Variable H : bytes -> bytes.
+  Theorem accessors_report_decoded bs f t oc :
+    canonical bs = true -> decode_fields_spec bs = Some f -> scripts_ok f -> tx_from_bytes bs = Ok t ->
+    tx_size t = N.of_nat (length bs) /\ tx_id H t = rev (H bs)
+    /\ version t = f_version f /\ locktime t = f_locktime f
+    /\ map prev_tx_id (inputs t) = map f_prev (f_ins f) /\ map vout (inputs t) = map f_vout (f_ins f)
+    /\ map sequence (inputs t) = map f_seq (f_ins f)
+    /\ map (fun i => to_bytes (unlocking i)) (inputs t) = map f_script (f_ins f)
+    /\ map value (outputs t) = map f_value (f_outs f)
+    /\ map (fun o => to_bytes (script_pub_key o)) (outputs t) = map f_pk (f_outs f)
+    /\ tx_outpoints t = spec_outpoints f
+    /\ tx_is_coinbase t = spec_is_coinbase f
+    /\ (spec_total_out f < u64 -> satoshis_out oc t = Ok (spec_total_out f)).
+  Proof.
+    intros Hc Hf Hs Ht. destruct (canonical_roundtrip bs f Hc Hf Hs) as (t' & Et & Bt & Ft).
+    rewrite Et in Ht. inversion Ht; subst t'. clear Ht.
+    split; [unfold tx_size; rewrite Bt; reflexivity|]. split; [unfold tx_id; rewrite Bt; reflexivity|].
+    rewrite tx_outpoints_spec, tx_is_coinbase_spec. rewrite <- Ft.
+    unfold fields_of. cbn [f_version f_ins f_outs f_locktime]. rewrite !map_map. cbn [in_fields_of out_fields_of f_prev f_vout f_seq f_script f_value f_pk].
+    repeat split; try reflexivity. apply satoshis_out_spec.
+  Qed.
+End AccessorsOnBytes.
